@@ -162,6 +162,9 @@ def match_known(prop, unit_name, f, known):
         if k.get('property') != prop or k.get('status') != 'open':
             continue
         m = k.get('match', {})
+        if m.get('engine') or not m.get('unit') or not m.get('function'):
+            # a finding of another engine, or one that does not name the obligation: it never suppresses a Verus failure
+            continue
         if m.get('unit') and m['unit'] != unit_name:
             continue
         if m.get('function') and m['function'] != f.function:
@@ -353,6 +356,10 @@ def main(argv):
                 known_hits.append((k, None, v))
             else:
                 violations.append((None, v))
+        for sig, n in (e.get('known_hits') or {}).items():
+            for kf in known:
+                if kf.get('property') == prop and kf.get('status') == 'open' and (kf.get('match') or {}).get('signature') == sig:
+                    known_hits.append((kf, None, {'signature': sig, 'scenarios': n}))
         undecided += e.get('undecided', [])
         for wmsg in e.get('warnings', []):
             print('WARNING property=%s %s' % (prop, wmsg))
